@@ -1866,8 +1866,13 @@ impl Compiler {
                         };
 
                         // Should we export the imported ID?
+                        // The value is bound to the alias when `as` is used, so that's the name
+                        // that needs to be available to later top-level code.
                         if self.settings.export_top_level_ids && self.frame_stack.len() == 1 {
-                            self.compile_value_export(*import_id, import_register)?;
+                            self.compile_value_export(
+                                maybe_as.unwrap_or(*import_id),
+                                import_register,
+                            )?;
                         }
                     }
                     Node::Str(_) => {
@@ -1929,9 +1934,12 @@ impl Compiler {
                                 imported.push(import_register);
                             }
 
-                            // Should we export the imported ID?
+                            // Should we export the imported ID (or its alias)?
                             if self.settings.export_top_level_ids && self.frame_stack.len() == 1 {
-                                self.compile_value_export(*import_id, import_register)?;
+                                self.compile_value_export(
+                                    maybe_as.unwrap_or(*import_id),
+                                    import_register,
+                                )?;
                             }
                         }
                         Node::Str(string) => {
